@@ -104,8 +104,18 @@ Proof.
   assert (Qeq_bool w 0 = true) by (apply Qeq_bool_iff; symmetry; exact Eq). congruence.
 Qed.
 
+(* the loop's second result: the total weight (zero weights add nothing) *)
+Lemma wmean_loop_wsum : forall ps m wsum, snd (wmean_loop ps m wsum) == wsum + wsum_w ps.
+Proof.
+  induction ps as [|[x w] t IH]; intros m wsum; cbn [wmean_loop].
+  - unfold wsum_w. simpl. ring.
+  - rewrite wsum_w_cons. destruct (Qeq_bool w 0) eqn:E.
+    + apply Qeq_bool_iff in E. rewrite IH, E. ring.
+    + cbv zeta. rewrite IH, Qred_correct. ring.
+Qed.
+
 Lemma wmean_loop_eq : forall ps m wsum, nonneg_weights ps -> 0 <= wsum -> 0 < wsum + wsum_w ps ->
-  wmean_loop ps m wsum == (m * wsum + wsum_xw ps) / (wsum + wsum_w ps).
+  fst (wmean_loop ps m wsum) == (m * wsum + wsum_xw ps) / (wsum + wsum_w ps).
 Proof.
   induction ps as [|[x w] t IH]; intros m wsum Hn H0 Hp.
   - unfold wsum_xw, wsum_w in *. simpl in *. field. lra.
@@ -122,14 +132,35 @@ Proof.
       rewrite Em, Ews. field. split; lra.
 Qed.
 
+(* Sample.Mean of a weighted non-empty sample: NaN exactly when the total weight is 0 *)
+Lemma sample_mean_weighted : forall xs ws st, xs <> [] ->
+  sample_mean (mkSample xs (Some ws) st) =
+    if Qeq_bool (snd (wmean_loop (combine xs ws) 0 0)) 0 then FNaN else FVal (fst (wmean_loop (combine xs ws) 0 0)).
+Proof.
+  intros xs ws st Hx. unfold sample_mean. cbn [s_xs s_ws]. destruct xs as [|x0 t]; [congruence|].
+  destruct (wmean_loop (combine (x0 :: t) ws) 0 0) as [m wsum]. reflexivity.
+Qed.
+
 (* WEIGHTED MEAN: sum(w x)/sum(w) (zero weights contribute nothing), when the total weight is positive *)
 Lemma wmean_eq : forall xs ws st, xs <> [] -> nonneg_weights (combine xs ws) -> 0 < wsum_w (combine xs ws) ->
   exists m, sample_mean (mkSample xs (Some ws) st) = FVal m /\ m == wmean_def (combine xs ws).
 Proof.
-  intros xs ws st Hx Hn Hp. unfold sample_mean. cbn [s_xs s_ws].
-  destruct xs as [|x0 t]; [congruence|]. cbv beta iota.
+  intros xs ws st Hx Hn Hp. rewrite (sample_mean_weighted xs ws st Hx).
+  pose proof (wmean_loop_wsum (combine xs ws) 0 0) as W.
+  destruct (Qeq_bool (snd (wmean_loop (combine xs ws) 0 0)) 0) eqn:E.
+  { apply Qeq_bool_iff in E. rewrite E in W. lra. }
   eexists. split; [reflexivity|].
   rewrite wmean_loop_eq; [|exact Hn|lra|lra]. unfold wmean_def. field. lra.
+Qed.
+
+(* ... and NaN when nothing carries weight (total weight 0), e.g. all weights zero *)
+Lemma wmean_nan : forall xs ws st, wsum_w (combine xs ws) == 0 -> sample_mean (mkSample xs (Some ws) st) = FNaN.
+Proof.
+  intros xs ws st H0. destruct xs as [|x0 t] eqn:E; [reflexivity|]. rewrite <- E in *.
+  rewrite (sample_mean_weighted xs ws st ltac:(rewrite E; discriminate)).
+  pose proof (wmean_loop_wsum (combine xs ws) 0 0) as W. rewrite H0 in W.
+  destruct (Qeq_bool (snd (wmean_loop (combine xs ws) 0 0)) 0) eqn:B; [reflexivity|].
+  assert (Qeq_bool (snd (wmean_loop (combine xs ws) 0 0)) 0 = true) by (apply Qeq_bool_iff; rewrite W; ring). congruence.
 Qed.
 
 (* ====================================================================== *)
@@ -243,20 +274,23 @@ Proof.
 Qed.
 
 (* ... and the code: Sample.Mean/Sum/Weight of the weighted sample = Mean/Sum/len of the repeated one *)
-Lemma int_weights_eq_repeat : forall xs ws st, length ws = length xs -> repeat_by_weights xs ws <> [] ->
+Lemma int_weights_eq_repeat : forall xs ws st, length ws = length xs ->
   fres_eq (sample_mean (mkSample xs (Some (map Qofnat ws)) st)) (mean (repeat_by_weights xs ws)) /\
   sample_sum (mkSample xs (Some (map Qofnat ws)) st) == vsum (repeat_by_weights xs ws) /\
   sample_weight (mkSample xs (Some (map Qofnat ws)) st) == Qofnat (length (repeat_by_weights xs ws)).
 Proof.
-  intros xs ws st H Hne.
+  intros xs ws st H.
   destruct (int_weights_eq_repeat_def xs ws H) as [A [B C]].
-  assert (Hx : xs <> []) by (intro E; subst xs; destruct ws; simpl in Hne; congruence).
-  assert (Hp : 0 < wsum_w (nat_pairs xs ws)).
-  { rewrite B. apply nQ_pos. exact Hne. }
   split; [|split].
-  - destruct (wmean_eq xs (map Qofnat ws) st Hx (nat_pairs_nonneg xs ws) Hp) as [m [M1 M2]].
-    destruct (welford_mean_eq _ Hne) as [u [U1 U2]].
-    rewrite M1, U1. simpl. rewrite M2, U2. exact C.
+  - destruct (repeat_by_weights xs ws) as [|r0 rt] eqn:Hr.
+    + (* all weights zero (or no values): the repeated sample is empty, both are NaN *)
+      rewrite (wmean_nan xs (map Qofnat ws) st); [exact I|]. fold (nat_pairs xs ws). rewrite B. reflexivity.
+    + rewrite <- Hr in *. assert (Hne : repeat_by_weights xs ws <> []) by (rewrite Hr; discriminate).
+      assert (Hx : xs <> []) by (intro E; subst xs; destruct ws; simpl in Hne; congruence).
+      assert (Hp : 0 < wsum_w (nat_pairs xs ws)) by (rewrite B; apply nQ_pos; exact Hne).
+      destruct (wmean_eq xs (map Qofnat ws) st Hx (nat_pairs_nonneg xs ws) Hp) as [m [M1 M2]].
+      destruct (welford_mean_eq _ Hne) as [u [U1 U2]].
+      rewrite M1, U1. simpl. rewrite M2, U2. exact C.
   - rewrite sample_sum_weighted, vsum_eq. exact A.
   - unfold sample_weight. simpl. rewrite vsum_eq.
     assert (E : Qsum (map Qofnat ws) == wsum_w (nat_pairs xs ws)).
@@ -334,48 +368,94 @@ Proof.
 Qed.
 
 (* weighted: coefficient_i * (total weight so far) = w_i *)
-Lemma wgeo_loop_coeffs : forall ps cs wsum ws0,
+Lemma wgeo_loop_coeffs : forall ps cs wsum ws0 cs' wsum',
   nonneg_weights ps -> 0 <= wsum -> length cs = length ws0 ->
   Forall2 (fun c w => c * wsum == w) cs ws0 ->
-  let cs' := wgeo_loop ps cs wsum in
-  Forall2 (fun c w => c * (wsum + wsum_w ps) == w) cs' (ws0 ++ map snd ps).
+  wgeo_loop ps cs wsum = Some (cs', wsum') ->
+  Forall2 (fun c w => c * (wsum + wsum_w ps) == w) cs' (ws0 ++ map snd ps) /\ wsum' == wsum + wsum_w ps.
 Proof.
-  induction ps as [|[x w] t IH]; intros cs wsum ws0 Hn H0 Hl Hc; cbn [wgeo_loop map snd]; cbv zeta.
-  - unfold wsum_w. simpl. rewrite app_nil_r.
+  induction ps as [|[x w] t IH]; intros cs wsum ws0 cs' wsum' Hn H0 Hl Hc R; cbn [wgeo_loop map snd] in *.
+  - injection R as <- <-. unfold wsum_w. simpl. rewrite app_nil_r. split; [|ring].
     eapply GASort.Forall2_imp; [|exact Hc]. intros c w0 Hcw. cbv beta in *. rewrite <- Hcw. ring.
   - inversion Hn as [|? ? Hw Ht]; subst. simpl in Hw.
     replace (ws0 ++ w :: map snd t) with ((ws0 ++ [w]) ++ map snd t) by (rewrite <- app_assoc; reflexivity).
     destruct (Qeq_bool w 0) eqn:E.
     + apply Qeq_bool_iff in E.
       assert (Ew : wsum + wsum_w ((x, w) :: t) == wsum + wsum_w t) by (unfold wsum_w; simpl; rewrite E; ring).
-      eapply GASort.Forall2_imp; [|apply (IH (cs ++ [0]) wsum (ws0 ++ [w]) Ht H0)].
-      * intros c w0 Hcw. cbv beta in *. rewrite Ew. exact Hcw.
+      destruct (IH (cs ++ [0]) wsum (ws0 ++ [w]) cs' wsum' Ht H0) as [G1 G2]; [| |exact R|].
       * rewrite !app_length. simpl. lia.
       * apply Forall2_app; [exact Hc|]. constructor; [|constructor]. rewrite E. ring.
-    + pose proof (nonzero_weight_pos w Hw E) as Hwpos.
-      set (ws' := Qred (wsum + w)). assert (Ews : ws' == wsum + w) by apply Qred_correct.
+      * split; [|rewrite G2, Ew; reflexivity].
+        eapply GASort.Forall2_imp; [|exact G1]. intros c w0 Hcw. cbv beta in *. rewrite Ew. exact Hcw.
+    + destruct (Qle_bool x 0); [discriminate|]. cbv zeta in R.
+      pose proof (nonzero_weight_pos w Hw E) as Hwpos.
+      set (ws' := Qred (wsum + w)) in *. assert (Ews : ws' == wsum + w) by apply Qred_correct.
       assert (Ew : wsum + wsum_w ((x, w) :: t) == ws' + wsum_w t) by (rewrite wsum_w_cons, Ews; ring).
-      eapply GASort.Forall2_imp; [|apply (IH _ ws' (ws0 ++ [w]) Ht)].
-      * intros c w0 Hcw. cbv beta in *. rewrite Ew. exact Hcw.
-      * lra.
+      destruct (IH (map (fun c => Qred (c - c * w / ws')) cs ++ [Qred (w / ws')]) ws' (ws0 ++ [w]) cs' wsum' Ht) as [G1 G2]; [lra| | |exact R|].
       * rewrite !app_length, map_length. simpl. lia.
       * apply Forall2_app.
-        -- clear -Hc Hwpos H0 Ews. clearbody ws'. induction Hc as [|c w0 cs' ws1 Hcw Hrest IHf]; cbn [map]; constructor; [|exact IHf].
+        -- clear -Hc Hwpos H0 Ews. clearbody ws'. induction Hc as [|c w0 cs1 ws1 Hcw Hrest IHf]; cbn [map]; constructor; [|exact IHf].
            rewrite (Qred_correct (c - c * w / ws')). rewrite <- Hcw. rewrite Ews. field. lra.
         -- constructor; [|constructor]. rewrite (Qred_correct (w / ws')). rewrite Ews. field. lra.
+      * split; [|rewrite G2, Ew; reflexivity].
+        eapply GASort.Forall2_imp; [|exact G1]. intros c w0 Hcw. cbv beta in *. rewrite Ew. exact Hcw.
 Qed.
+
+(* the early NaN return: exactly when some value <= 0 carries a non-zero weight *)
+Definition wnonpos (ps : list (Q * Q)) : Prop := exists x w, In (x, w) ps /\ x <= 0 /\ ~ w == 0.
+Lemma wgeo_loop_none_iff : forall ps cs wsum, wgeo_loop ps cs wsum = None <-> wnonpos ps.
+Proof.
+  induction ps as [|[x w] t IH]; intros cs wsum; cbn [wgeo_loop].
+  - split; [discriminate | intros (x & w & [] & _)].
+  - destruct (Qeq_bool w 0) eqn:E.
+    + rewrite IH. apply Qeq_bool_iff in E. split.
+      * intros (x' & w' & I & P). exists x', w'. split; [right; exact I | exact P].
+      * intros (x' & w' & [I|I] & P1 & P2); [injection I as <- <-; contradiction | exists x', w'; auto].
+    + assert (Nw : ~ w == 0) by (intro C; apply Qeq_bool_iff in C; congruence).
+      destruct (Qle_bool x 0) eqn:L.
+      * apply Qle_bool_iff in L. split; [intros _; exists x, w; split; [left; reflexivity | split; assumption] | reflexivity].
+      * cbv zeta. rewrite IH. assert (Lx : 0 < x) by (apply Qnot_le_lt; intro C; apply Qle_bool_iff in C; congruence). split.
+        -- intros (x' & w' & I & P). exists x', w'. split; [right; exact I | exact P].
+        -- intros (x' & w' & [I|I] & P1 & P2); [injection I as <- <-; lra | exists x', w'; auto].
+Qed.
+
+(* Sample.GeoMean of a weighted non-empty sample, unfolded *)
+Lemma sample_geomean_weighted : forall xs ws st, xs <> [] ->
+  sample_geomean (mkSample xs (Some ws) st) =
+    match wgeo_loop (combine xs ws) [] 0 with
+    | None => GNaN
+    | Some (cs, wsum) => if Qeq_bool wsum 0 then GNaN else GExp cs
+    end.
+Proof. intros xs ws st Hx. unfold sample_geomean. cbn [s_xs s_ws]. destruct xs; [congruence | reflexivity]. Qed.
 
 (* weighted GeoMean = exp(sum (w_i/W) ln x_i) = (prod x_i^w_i)^(1/W) *)
 Lemma sample_geomean_coeffs : forall xs ws st cs, xs <> [] -> nonneg_weights (combine xs ws) ->
   sample_geomean (mkSample xs (Some ws) st) = GExp cs ->
   Forall2 (fun c w => c * wsum_w (combine xs ws) == w) cs (map snd (combine xs ws)).
 Proof.
-  intros xs ws st cs Hx Hn H. unfold sample_geomean in H. cbn [s_xs s_ws] in H.
-  assert (H' : GExp (wgeo_loop (combine xs ws) [] 0) = GExp cs) by (destruct xs; [congruence|exact H]).
-  clear H. inversion H'; subst cs. clear H'.
-  pose proof (wgeo_loop_coeffs (combine xs ws) [] 0 [] Hn ltac:(lra) eq_refl (Forall2_nil _)) as G.
+  intros xs ws st cs Hx Hn H. rewrite (sample_geomean_weighted xs ws st Hx) in H.
+  destruct (wgeo_loop (combine xs ws) [] 0) as [[cs' wsum']|] eqn:R; [|discriminate].
+  destruct (Qeq_bool wsum' 0); [discriminate|]. injection H as ->.
+  destruct (wgeo_loop_coeffs (combine xs ws) [] 0 [] cs wsum' Hn ltac:(lra) eq_refl (Forall2_nil _) R) as [G _].
   simpl in G. eapply GASort.Forall2_imp; [|exact G]. intros c w Hcw. cbv beta in *.
   rewrite <- Hcw. ring.
+Qed.
+
+(* weighted GeoMean is NaN EXACTLY when a value <= 0 carries weight or nothing carries weight
+   (non-negative weights); a non-positive value of weight zero is ignored *)
+Lemma sample_geomean_nan_iff : forall xs ws st, xs <> [] -> nonneg_weights (combine xs ws) ->
+  (sample_geomean (mkSample xs (Some ws) st) = GNaN <-> wnonpos (combine xs ws) \/ wsum_w (combine xs ws) == 0).
+Proof.
+  intros xs ws st Hx Hn. rewrite (sample_geomean_weighted xs ws st Hx).
+  destruct (wgeo_loop (combine xs ws) [] 0) as [[cs' wsum']|] eqn:R.
+  - destruct (wgeo_loop_coeffs (combine xs ws) [] 0 [] cs' wsum' Hn ltac:(lra) eq_refl (Forall2_nil _) R) as [_ G].
+    assert (NP : ~ wnonpos (combine xs ws)).
+    { intro C. apply (wgeo_loop_none_iff _ [] 0) in C. congruence. }
+    destruct (Qeq_bool wsum' 0) eqn:E.
+    + apply Qeq_bool_iff in E. split; [intros _; right; rewrite <- E, G; ring | reflexivity].
+    + split; [discriminate|]. intros [C|C]; [contradiction|].
+      assert (Qeq_bool wsum' 0 = true) by (apply Qeq_bool_iff; rewrite G, C; ring). congruence.
+  - split; [intros _; left; apply (wgeo_loop_none_iff _ [] 0); exact R | reflexivity].
 Qed.
 
 (* ====================================================================== *)
@@ -780,3 +860,73 @@ Proof.
   intros xs ws Hx Hl. rewrite (weighted_bounds_unsorted xs _ Hx).
   apply bounds_same_elements. intro x. apply used_nat_pairs_in. exact Hl.
 Qed.
+
+(* ====================================================================== *)
+(* NaN-ness of the weighted Mean / GeoMean: total weight zero, non-positive values *)
+(* ====================================================================== *)
+Lemma sample_mean_nan_iff : forall xs ws st, xs <> [] ->
+  (sample_mean (mkSample xs (Some ws) st) = FNaN <-> wsum_w (combine xs ws) == 0).
+Proof.
+  intros xs ws st Hx. split; [|apply wmean_nan].
+  rewrite (sample_mean_weighted xs ws st Hx). pose proof (wmean_loop_wsum (combine xs ws) 0 0) as W.
+  destruct (Qeq_bool (snd (wmean_loop (combine xs ws) 0 0)) 0) eqn:E; [|discriminate].
+  intros _. apply Qeq_bool_iff in E. rewrite W in E. lra.
+Qed.
+
+Lemma wnonpos_used : forall ps, wnonpos ps <-> exists x, In x (used ps) /\ x <= 0.
+Proof.
+  intro ps. unfold wnonpos, used. split.
+  - intros (x & w & I & L & N). exists x. split; [|exact L]. apply in_map_iff. exists (x, w). split; [reflexivity|].
+    apply filter_In. split; [exact I|]. unfold nzw. cbn [snd]. destruct (Qeq_bool w 0) eqn:E; [apply Qeq_bool_iff in E; contradiction | reflexivity].
+  - intros (x & I & L). apply in_map_iff in I. destruct I as ([x' w] & <- & I). apply filter_In in I. destruct I as [I N].
+    exists x', w. split; [exact I|]. split; [exact L|]. unfold nzw in N. cbn [snd] in N. intro C. apply Qeq_bool_iff in C. rewrite C in N. discriminate.
+Qed.
+
+(* INTEGER WEIGHTS: the weighted GeoMean is NaN exactly when the GeoMean of the repeated sample is:
+   the repeated sample is empty (all weights zero) or contains a value <= 0 (which then carries weight) *)
+Lemma int_weights_geomean_nan_iff : forall xs ws st, length ws = length xs ->
+  (sample_geomean (mkSample xs (Some (map Qofnat ws)) st) = GNaN <-> geomean (repeat_by_weights xs ws) = GNaN).
+Proof.
+  intros xs ws st H. destruct xs as [|x0 t] eqn:E.
+  - destruct ws; [|discriminate]. split; reflexivity.
+  - rewrite <- E in *. assert (Hx : xs <> []) by (rewrite E; discriminate).
+    rewrite (sample_geomean_nan_iff xs (map Qofnat ws) st Hx (nat_pairs_nonneg xs ws)). fold (nat_pairs xs ws).
+    rewrite geomean_nan_iff. destruct (int_weights_eq_repeat_def xs ws H) as [_ [B _]].
+    rewrite wnonpos_used. split.
+    + intros [(x & I & L)|Z0].
+      * right. exists x. split; [apply (used_nat_pairs_in xs ws x H); exact I | exact L].
+      * left. destruct (repeat_by_weights xs ws) as [|r0 rt] eqn:Hr; [reflexivity|]. exfalso.
+        assert (P : 0 < nQ (r0 :: rt)) by (apply nQ_pos; discriminate). rewrite <- B, Z0 in P. lra.
+    + intros [Z0|(x & I & L)].
+      * right. rewrite B, Z0. reflexivity.
+      * left. exists x. split; [apply (used_nat_pairs_in xs ws x H); exact I | exact L].
+Qed.
+
+(* ORDER INDEPENDENCE of the NaN-ness (the defect repaired by 93a8d25: [0,4] gave NaN, [4,0] gave 0) *)
+Lemma wnonpos_perm : forall a b, Permutation a b -> (wnonpos a <-> wnonpos b).
+Proof.
+  intros a b P. unfold wnonpos. split; intros (x & w & I & R); exists x, w; (split; [|exact R]).
+  - eapply Permutation_in; eassumption.
+  - eapply Permutation_in; [apply Permutation_sym|]; eassumption.
+Qed.
+Lemma nonneg_weights_perm : forall a b, Permutation a b -> nonneg_weights a -> nonneg_weights b.
+Proof. intros a b P H. unfold nonneg_weights in *. eapply Permutation_Forall; eassumption. Qed.
+
+Lemma weighted_nan_perm : forall ps ps' st st', Permutation ps ps' -> nonneg_weights ps ->
+  (sample_mean (mkSample (map fst ps) (Some (map snd ps)) st) = FNaN <->
+   sample_mean (mkSample (map fst ps') (Some (map snd ps')) st') = FNaN) /\
+  (sample_geomean (mkSample (map fst ps) (Some (map snd ps)) st) = GNaN <->
+   sample_geomean (mkSample (map fst ps') (Some (map snd ps')) st') = GNaN).
+Proof.
+  intros ps ps' st st' P Hn. pose proof (nonneg_weights_perm _ _ P Hn) as Hn'.
+  destruct ps as [|p0 pt] eqn:E.
+  - apply Permutation_nil in P. subst ps'. split; split; reflexivity.
+  - rewrite <- E in *. assert (Hx : map fst ps <> []) by (rewrite E; discriminate).
+    assert (Hx' : map fst ps' <> []).
+    { intro C. apply map_eq_nil in C. subst ps'. apply Permutation_sym, Permutation_nil in P. congruence. }
+    split.
+    + rewrite (sample_mean_nan_iff _ _ st Hx), (sample_mean_nan_iff _ _ st' Hx'), !combine_split_map, (wsum_w_perm _ _ P). reflexivity.
+    + rewrite (sample_geomean_nan_iff _ _ st Hx), (sample_geomean_nan_iff _ _ st' Hx'), !combine_split_map by (rewrite combine_split_map; assumption).
+      rewrite (wnonpos_perm _ _ P), (wsum_w_perm _ _ P). reflexivity.
+Qed.
+
